@@ -80,6 +80,12 @@ func (s *Session) ReadLine() (string, bool) {
 		if err != nil {
 			return "", false
 		}
+		// The device reacts only once the tool has come to rest after its
+		// write (normally: waiting in Expect).  Otherwise "the device closes
+		// the connection" races with "the tool enters Expect", and whether the
+		// tool notices at once or at its next poll tick would be decided by
+		// the Go scheduler instead of the tape.
+		s.wait()
 	}
 }
 
